@@ -19,7 +19,7 @@ SCOPE = ("every cube of the scope = every list of 0-3 (thorough: also 4) row-ali
          "three axes (N <= 2, C, D <= 2, up to three dimensions) giving scaffold axes; inferred shape for every case and an explicit padded "
          "shape (+1/+2 per axis) for N <= 3 (N <= 2 for 3 dims over {0,1,2}); extent-boundary cases (257,2), (2,129), (256,2), (2,128) padded, "
          "with the top category present, and with it as the common value; lopsided family: 257/300/600 rows, an entry of 1-2 rows (first, last, row 256) against an "
-         "entry of (nearly) all rows, 2-3 dims in both orders; 0 dims: ccube([]).count(N=n), n <= 4. Thorough adds N = 5 (1-2 dims), "
+         "entry of (nearly) all rows, 2-3 dims in both orders; hugeN family: 1-2 dims of 2**24+1, 2**24+4, 2**31+5, 2**32-1 rows with 2-4 uncommon rows (sparse oracle); 0 dims: ccube([]).count(N=n), n <= 4. Thorough adds N = 5 (1-2 dims), "
          "3 dims N = 3 over {0,1,2}, 4 dims N <= 3 exhaustive, 4 dims N = 4, 5 sampled with the seed, extents 256/257/65536/65537 on each axis "
          "of a 4-dim cube, and the explicit shapes left out above")
 RULES = {
@@ -40,7 +40,7 @@ EXPECT = {
             "reduce/entry-region-is-what-walk-and-fill-must-leave", "reduce/ensures-missing-exactly-where-bruteforce-count-is-zero",
             "reduce/ensures-cells-equal-bruteforce-count-table", "reduce/ensures-shape-is-scaffold-plus-interacting-shape",
             "count/ensures-missing-exactly-where-bruteforce-count-is-zero", "count/ensures-cells-equal-bruteforce-count-table",
-            "count/ensures-shape-is-scaffold-plus-interacting-shape", "zero-dimension-cube-without-N-is-refused"],
+            "count/ensures-shape-is-scaffold-plus-interacting-shape", "zero-dimension-cube-without-N-is-refused", "count/ensures-cells-equal-the-count-table-of-a-sparse-index-of-millions-of-rows"],
     "C14": ["walk/ensures-trace-delivers-every-nonempty-combination", "walk/ensures-trace-delivers-nothing-else-and-each-exactly-once",
             "walk/ensures-trace-rowids-equal-bruteforce-rows", "walk/ensures-trace-rowids-uint32-strictly-increasing-nonempty",
             "walk/ensures-trace-never-presents-common-category",
